@@ -37,6 +37,7 @@ def gen_dag_config(rng, n=None):
         if k: t["uses"] = rng.sample(cands, min(k, len(cands)))
         pref = [q for q in cands if p.startswith(q)]          # e.g. t12 uses t1, core-utils uses core
         if pref and rng.random() < 0.7: t["uses"] = sorted(set(t.get("uses", []) + [rng.choice(pref)]))
+        if rng.random() < 0.3: t["commands"] = {"path": rng.choice([p + "/scripts", "tools/cmd_" + p.replace("/", "_")])}     # commands kept outside the default directory
         targets.append(t)
     rng.shuffle(targets)
     return {"targets": targets, "sequences": SEQS}
@@ -122,6 +123,14 @@ def run_case(ctx, rng, focus, forced=None):
                     sb = rng.choice(sibs)
                     script["%s|%s" % (fc, ft)]["sleep_ms"] = 0
                     script["%s|%s" % (fc, sb)] = {"sleep_ms": 400, "detach_output": True}
+        if focus == "C04" and selected and rng.random() < 0.4:
+            # daemon-style executables: close both output pipes at once and keep running for a second - "has exited" is
+            # about the process, not about its pipes, so nothing at a later position may start before they are gone
+            for _ in range(rng.choice([1, 2])):
+                k = "%s|%s" % (rng.choice(expected_cmds), rng.choice(selected))
+                if k in script and "exit" not in script[k]:
+                    script[k] = {"sleep_ms": rng.choice([700, 900, 1200]), "detach_output": True}
+            ctx.count("detached_long_runner")
         rr.script = script; rr.write_script()
         rc, out, err, raw = rr.run(*args)
         traces = rr.traces()
